@@ -41,6 +41,9 @@ const basePrelude = `(declare-sort Str 0)
 
 var basePreludeFacts = []string{
 	"(forall ((o Int) (i Int)) (! (= (ix o i) (+ o i)) :pattern ((ix o i))))",
+	// re-slicing s[1:] (queues): element i of the tail is element i+1 of the original - names the shifted term so that
+	// quantified facts about the original slice instantiate
+	"(forall ((o Int) (i Int)) (! (= (ix (+ o 1) i) (ix o (+ i 1))) :pattern ((ix (+ o 1) i))))",
 	"(= (blen bnil) 0)",
 	"(= (slen str_empty) 0)",
 	"(forall ((s Str)) (! (>= (slen s) 0) :pattern ((slen s))))",
